@@ -424,7 +424,9 @@ def run_cross(chk: Check, owner: str):
         rows = g.collect_rows(nodes.values())
         df = A.frame(rows, chk.tmp)
         seen = {}
-        for p in gr.bfs_paths():
+        import random as _random
+        # tree paths (every node) + a stratified sample of the non-tree edges (the same event after another history)
+        for p in gr.bfs_paths() + gr.sample_paths(gr.edge_paths(), 500 if quick else 8000, _random.Random(chk.seed)):
             replay(chk, owner, A, df, rows, [nodes[k] for k in p], seen, p)
             chk.traces += 1
         if len(chk.samples) < 6:
